@@ -113,8 +113,12 @@ Theorem C14_str2int_shape_separates : forall v, ~ numeral_shape 0 [48; 120] v.
 Proof. exact shape_rejects_prefix_only. Qed.
 Print Assumptions C14_str2int_shape_separates.
 
-(* scraped fact the float streams rely on (trip-wire): the infinity branch of CEmitter:add_scalar_literal is guarded by
-   bn.isinfinite(num) alone - no finite constant, of any float width, is emitted as infinity by the printer itself *)
+(* scraped fact the float streams rely on (trip-wire): the infinity BRANCH of CEmitter:add_scalar_literal is guarded by
+   bn.isinfinite(num) alone.  That does not mean that only infinite constants are emitted as infinity: since 2e78fcf the
+   pre-rounding block in front of it deliberately turns a FINITE float32 constant of magnitude >= 0x1.ffffffp+127
+   (FLT_MAX + half ulp) into math.huge, which this branch then emits (C14_emit_f32_rounded_first).  What the guard
+   excludes is any OTHER finite constant, of any float width, reaching the infinity builtin (the seeded change C14-D of the
+   pre-repair tree widened exactly this guard).  The real guarantee is the emitf-boundary stream (bit-exact). *)
 Theorem C14_emit_inf_guard : EMIT_INF_GUARD_IS_ISINFINITE = true.
 Proof. exact emit_inf_guard. Qed.
 Print Assumptions C14_emit_inf_guard.
@@ -127,3 +131,25 @@ Print Assumptions C14_emit_inf_guard.
 Theorem C14_emit_f32_rounded_first : EMIT_F32_ROUNDED_BEFORE_PRINTING = true.
 Proof. exact emit_f32_rounded_first. Qed.
 Print Assumptions C14_emit_f32_rounded_first.
+
+(* _iff_policy companion of C14_emit_f32_rounded_first, on a model of the OVERFLOW DECISION of the pre-rounding block only
+   (magnitudes at the top of the float32 range in units of 1/16 ulp; below FLT_MAX the C conversion is taken as correct):
+   the block agrees with round-to-nearest-even-with-overflow on every magnitude from FLT_MAX - ulp up exactly when its
+   infinity threshold is FLT_MAX + half ulp; with the threshold FLT_MAX (the seeded change C14-D) it is wrong at
+   FLT_MAX + 1/16 ulp.  The model is not extracted; the code is tied to it by the scraped flag and by the emitf-boundary
+   stream. *)
+Theorem C14_emit_f32_block_iff_policy : forall half,
+  (forall x, F32_TOP - 16 <= x -> f32_block half x = f32_correct x) <-> half = true.
+Proof. exact f32_block_iff_policy. Qed.
+Print Assumptions C14_emit_f32_block_iff_policy.
+
+Theorem C14_emit_f32_block_correct : forall x, F32_TOP - 16 <= x -> f32_block EMIT_F32_ROUNDED_BEFORE_PRINTING x = f32_correct x.
+Proof. exact f32_block_correct. Qed.
+Print Assumptions C14_emit_f32_block_correct.
+
+(* completeness of str2int: every numeral of that shape (for that base, with that value) is accepted with that value.
+   With C14_str2int_sound: str2int base s = Some v exactly when [numeral_shape base s v].  (That the shape is Lua's own -
+   l_str2int / luaB_tonumber - is covered by the numeral stream with Lua as oracle; '0b' is a documented extension.) *)
+Theorem C14_str2int_complete : forall base s v, numeral_shape base s v -> nl_str2int base s = Some v.
+Proof. exact str2int_complete. Qed.
+Print Assumptions C14_str2int_complete.
